@@ -144,9 +144,7 @@ class Gen:
 
     def encodable(self, spec):
         try:
-            i = spec.build()
-            i.encode()
-            i.relocations()
+            direct_view(self.cfg.arch, spec.build())     # encodes (pseudo instructions: renders) and collects relocations
             return True
         except Exception:  # noqa  (an operand outside what this class can encode)
             return False
